@@ -213,8 +213,26 @@ def _deserialize_exception(data: Any) -> Exception:
     exc_message = data["exception_message"]
     try:
         exc_cls = import_module_from_qualified_name(data["exception_type"])
+    except (ImportError, AttributeError, ValueError):
+        return Exception(exc_message)
+    if not (isinstance(exc_cls, type) and issubclass(exc_cls, Exception)):
+        return Exception(exc_message)
+    try:
         return exc_cls(exc_message)
     except (ImportError, AttributeError, ValueError):
+        return Exception(exc_message)
+    except Exception:
+        # The constructor does not take a single message argument (e.g. it needs
+        # further positional or keyword arguments). Keep the type and the message
+        # when that is possible without running the constructor; never let a
+        # constructor signature make a persisted tick or event unreadable.
+        try:
+            exc = exc_cls.__new__(exc_cls)
+            exc.args = (exc_message,)
+            if str(exc) == exc_message:
+                return exc
+        except Exception:
+            pass
         return Exception(exc_message)
 
 
